@@ -158,6 +158,142 @@ def extract(text):
     return arms, flags
 
 
+def str_cond(src, line):
+    """evaluates a Rust string predicate over `line` concretely: == != starts_with is_empty ! && || ( )"""
+    toks = re.findall(r'\|\||&&|!=|==|!|\(|\)|line\.starts_with\("(?:[^"\\]|\\.)*"\)|line\.is_empty\(\)|line|"(?:[^"\\]|\\.)*"', src)
+    if "".join(toks) != re.sub(r"\s+", "", src.replace('" "', '"\x00"')).replace("\x00", " ") and re.sub(r"\s+", "", "".join(toks)) != re.sub(r"\s+", "", src):
+        raise Untranslatable("line predicate %r outside the subset" % src)
+    pos = [0]
+
+    def peek():
+        return toks[pos[0]] if pos[0] < len(toks) else None
+
+    def take():
+        pos[0] += 1
+        return toks[pos[0] - 1]
+
+    def lit(t):
+        return json.loads(t)
+
+    def p_or():
+        v = p_and()
+        while peek() == "||":
+            take()
+            w = p_and()
+            v = v or w
+        return v
+
+    def p_and():
+        v = p_not()
+        while peek() == "&&":
+            take()
+            w = p_not()
+            v = v and w
+        return v
+
+    def p_not():
+        t = take()
+        if t == "!":
+            return not p_not()
+        if t == "(":
+            v = p_or()
+            if take() != ")":
+                raise Untranslatable("missing )")
+            return v
+        if t.startswith("line.starts_with("):
+            return line.startswith(lit(t[len("line.starts_with("):-1]))
+        if t == "line.is_empty()":
+            return line == ""
+        if t == "line":
+            op = take()
+            rhs = lit(take())
+            if op == "==":
+                return line == rhs
+            if op == "!=":
+                return line != rhs
+        raise Untranslatable("line predicate token %r" % t)
+
+    v = p_or()
+    if peek() is not None:
+        raise Untranslatable("trailing tokens in %r" % src)
+    return v
+
+
+def extract_chain(text):
+    """[(condition source, body source)] of the `if line == "s SATISFIABLE" ... else if ...` classification chain"""
+    text = re.sub(r"//[^\n]*", "", text)
+    m = re.search(r'if\s+line\s*==\s*"s SATISFIABLE"\s*\{', text)
+    if not m:
+        raise Untranslatable("the line classification chain was not found")
+    chain, k = [], m.start()
+    while True:
+        cm = re.compile(r"\s*if\s+([^{}]*?)\{").match(text, k)
+        if not cm:
+            raise Untranslatable("unparsed branch of the classification chain")
+        b = cm.end() - 1
+        e = matching(text, b)
+        chain.append((cm.group(1).strip(), text[b + 1:e]))
+        em = re.compile(r"\s*else\s+(?=if)").match(text, e + 1)
+        if not em:
+            if re.compile(r"\s*else\s*\{").match(text, e + 1):
+                raise Untranslatable("final else branch in the classification chain")
+            break
+        k = em.end()
+    return chain
+
+
+GARBAGE = "segmentation fault"
+FIRST = [("s SATISFIABLE", "sat"), ("s UNSATISFIABLE", "unsat"), ("v 1 -2 0", "value"), ("c comment", "comment"), ("", "empty")]
+
+
+def early_exit_queries(text, verdict, status, seen, end, res):
+    """Every line of the reply is examined: after any first line, a following garbage line must make the call abort
+    (or the verdict be Unknown).  Branch taken by each representative line: conditions evaluated concretely; whether a
+    branch leaves the loop early (`break` / `return`): from its body; z3 decides over the first line's class."""
+    chain = extract_chain(text)
+
+    def branch_of(line):
+        for i, (c, _b) in enumerate(chain):
+            if str_cond(c, line):
+                return i
+        return None
+
+    gb = branch_of(GARBAGE)
+    garbage_aborts = gb is not None and "panic!" in chain[gb][1]
+    exits = [bool(re.search(r"\b(break|return)\b", re.sub(r'"(?:[^"\\]|\\.)*"', '""', b))) for _c, b in chain]
+    cls = z3.Int("first_line")
+    cons, examined = [], z3.BoolVal(True)
+    for k, (line, kind) in enumerate(FIRST):
+        bi = branch_of(line)
+        ex = z3.BoolVal(not (bi is not None and exits[bi]))
+        examined = z3.If(cls == k, ex, examined)
+        cons.append(z3.Implies(cls == k, z3.And(status == {"sat": STRUE, "unsat": SFALSE}.get(kind, NONE),
+                                                 seen == (kind == "value"), end == (kind == "value"))))
+    res["chain"] = [{"condition": c, "leaves_the_loop": x} for (c, _b), x in zip(chain, exits)]
+    f = z3.And(cls >= 0, cls < len(FIRST), *cons)
+    bad = z3.And(f, z3.Or(z3.Not(examined), z3.BoolVal(not garbage_aborts)), verdict != UNKNOWN)
+    s = z3.Solver()
+    s.add(bad)
+    t = time.time()
+    r = s.check()
+    dt = round(time.time() - t, 3)
+    res["solver_s"] += dt
+    entry = {"query": "reply-E", "what": "a garbage line after the first line of the reply is not examined (or tolerated) and a verdict is reported", "result": str(r), "solver_s": dt}
+    if r == z3.sat:
+        k = s.model().eval(cls, model_completion=True).as_long()
+        v = {"query": "reply-E", "what": entry["what"], "status": "garbage-after", "seen": False, "end": False,
+             "reply": FIRST[k][0] + "\n" + GARBAGE + "\n"}
+        entry.update(v)
+        res["violations"].append(v)
+    elif r == z3.unknown:
+        res["inconclusive"].append("reply-E: " + s.reason_unknown())
+    res["queries"].append(entry)
+    w = z3.Solver()
+    w.add(f, examined)
+    if w.check() != z3.sat:
+        res["inconclusive"].append("reply-E: no first line leaves the rest of the reply examined (vacuous encoding)")
+
+
 def run(tier="quick"):
     t0 = time.time()
     res = {"queries": [], "violations": [], "inconclusive": [], "solver_s": 0.0}
@@ -213,6 +349,10 @@ def run(tier="quick"):
         elif r == z3.unknown:
             res["inconclusive"].append("%s: %s" % (entry["query"], s.reason_unknown()))
         res["queries"].append(entry)
+    try:
+        early_exit_queries(open(SRC).read(), verdict, status, seen, end, res)
+    except (Untranslatable, ValueError) as e:
+        res["inconclusive"].append("reply classification chain: %s" % e)
     # translator validation: the table against the real parser on one concrete reply per combination
     res["validated"] = 0
     for st in ("none", "sat", "unsat"):
@@ -251,7 +391,9 @@ def replay(v):
     """(reproduced, text): the real parser's verdict on the reply against the rule of the property."""
     reply = v["reply"]
     real = real_verdict(reply)
-    if v["status"] == "sat" and v["seen"] and v["end"]:
+    if v["status"] == "garbage-after":
+        allowed = ("UNKNOWN", "PANIC")
+    elif v["status"] == "sat" and v["seen"] and v["end"]:
         allowed = ("SAT",)
     elif v["status"] == "unsat":
         allowed = ("UNSAT",)
